@@ -20,13 +20,13 @@ grep -q "go:build race\|-race" $demo $SD/notes.md 2>/dev/null && [[ "$ID" == C20
 pat=$(grep -o 'func Test[A-Za-z0-9_]*' $demo | awk '{print $2}' | paste -sd'|')
 echo "== $ID: demo $(basename $demo) in $dir $race ($pat)"
 go build ./... || { echo "BUILD FAILS"; exit 1; }
-suite=$(go test -vet=off -count=1 ./fix/... ./utils/... ./session/... ./tests/... 2>&1 | grep -E '^(ok|FAIL|panic)' | awk '{print $1}' | sort | uniq -c | tr '\n' ' ')
+suite=$(go test -vet=off -count=1 ./fix/... ./utils/... ./session/... ./tests/... 2>&1 | grep -aE '^(ok|FAIL|panic)' | awk '{print $1}' | sort | uniq -c | tr '\n' ' ')
 echo "suite with change: $suite"
 cp $demo $dir/zz_seeded_demo_test.go
-with=$(go test $race -vet=off -count=1 -run "$pat" ./$dir 2>&1 | grep -E '^(ok|FAIL|---|panic)' | head -4 | tr '\n' ' ')
+with=$(go test $race -vet=off -count=1 -run "$pat" ./$dir 2>&1 | grep -aE '^(ok|FAIL|---|panic)' | head -4 | tr '\n' ' ')
 echo "demo WITH change: $with"
 git apply -R $SD/patch.diff
-without=$(go test $race -vet=off -count=1 -run "$pat" ./$dir 2>&1 | grep -E '^(ok|FAIL|---|panic)' | head -4 | tr '\n' ' ')
+without=$(go test $race -vet=off -count=1 -run "$pat" ./$dir 2>&1 | grep -aE '^(ok|FAIL|---|panic)' | head -4 | tr '\n' ' ')
 echo "demo WITHOUT change: $without"
 git apply $SD/patch.diff
 rm -f $dir/zz_seeded_demo_test.go; [[ "$dir" == generator/zzdemo_* ]] && rm -rf $dir
